@@ -84,7 +84,10 @@ def run_scenario(sc, root, bindir, focus):
             argv = ['redo-ifchange'] + [sp(t) for t in sub]
         else:
             argv = ['redo', '-j%d' % rnd.choice([1, 2, 4])] + [sp(t) for t in (rts if rnd.random() < 0.6 else rnd.sample(pj['targs'], 1))]
-        plan.append((rnd.random() * sc['spread_ms'] / 1000.0, argv))
+        # with log capture: now and then the reader of a command's output goes away while it builds (its log viewer is
+        # killed): the command has to go on, hold its locks and record its jobs as ever
+        kv = 0.03 + rnd.random() * 0.15 if (sc['log'] and argv[0] in ('redo', 'redo-ifchange') and rnd.random() < 0.4) else None
+        plan.append((rnd.random() * sc['spread_ms'] / 1000.0, argv, kv))
     lock = threading.Lock()
     ser = None
     if sc.get('sched'):
@@ -92,9 +95,10 @@ def run_scenario(sc, root, bindir, focus):
         ser = harness.Serializer(os.path.join(d, 'sgate'), sc['seed'] % 100000, settle=0.008)
         extra = dict(extra, **ser.env())
 
-    def launch(delay, argv):
+    def launch(delay, argv, kv=None):
         time.sleep(delay)
-        r = jobdrive.run_build(bindir, pdir, trace, argv, timeout=180 if ser else 120, extra_env=extra)
+        r = jobdrive.run_build(bindir, pdir, trace, argv, timeout=180 if ser else 120, extra_env=extra, kill_viewer_after=kv)
+        r['viewer_killed_after'] = kv
         r['stderr'] = r['stderr'][-3000:]
         r['stdout'] = r['stdout'][-300:]
         with lock:
@@ -111,6 +115,8 @@ def run_scenario(sc, root, bindir, focus):
     for r in cmds:
         name = ' '.join(r['argv'])
         se = r['stderr']
+        if r.get('viewer_killed_after') is not None and r['rc'] == 99 and 'failed to start redo-log' in se:
+            continue        # the viewer was killed while it started up: redo refuses to go on (nothing was built)
         for pb in jobdrive.classify(r, None):
             problems.append('%s: %s' % (name, pb))
         for pat in DB_ERRORS:
